@@ -5,7 +5,7 @@
     (Gen/StreamConsts.v, Gen/HelloConsts.v). *)
 From Coq Require Import List NArith Bool.
 From Verif Require Import Lib.Bytes Sni.Wire Sni.Hello Sni.HelloProofs Sni.Stream Sni.StreamProofs
-  Sni.StreamClose Sni.ReadBuf Sni.ReadBufProofs Sni.ReadHold Sni.ReadHoldProofs Sni.PendingAge Sni.PendingAgeProofs Sni.TunnelCtx Sni.SideRead Sni.SideReadProofs Sni.StreamGen Gen.StreamConsts Gen.HelloConsts Gen.WireSchema Sni.WireGen.
+  Sni.StreamClose Sni.ReadBuf Sni.ReadBufProofs Sni.ReadHold Sni.ReadHoldProofs Sni.PendingAge Sni.PendingAgeProofs Sni.TunnelCtx Sni.SideDeadline Sni.SideRead Sni.SideReadProofs Sni.StreamGen Gen.StreamConsts Gen.HelloConsts Gen.WireSchema Sni.WireGen.
 Import ListNotations.
 Local Open Scope N_scope.
 
@@ -387,6 +387,25 @@ Theorem C01_delivery_independent_of_dial_ctx_refuted : forall d,
   rpc_delivers (Some d) CtxDial d = false /\ (0 < d -> rpc_delivers (Some d) CtxDial 0 = true).
 Proof. exact dial_ctx_dies. Qed.
 Print Assumptions C01_delivery_independent_of_dial_ctx_refuted.
+
+(** ** A cleared write deadline is cleared (side connections)
+
+    With the recorded deadline handed to the websocket unconditionally (emitted
+    from sideConn.applyWriteDeadline), after any history of SetWriteDeadline
+    calls that ends with the zero time the websocket has no deadline and a
+    write at any later instant is not failed by an old one. *)
+Theorem C01_cleared_write_deadline_is_cleared : forall sets t,
+  gen_sideconn_deadline_unconditional = true /\
+  ws_after_sets false (sets ++ [None]) = None /\
+  write_ok (ws_after_sets false (sets ++ [None])) t = true.
+Proof. exact (fun sets t => conj gen_sideconn_deadline_applied_unconditionally (cleared_deadline_is_cleared sets t)). Qed.
+Print Assumptions C01_cleared_write_deadline_is_cleared.
+
+(** Skipping the zero time (seeded change C01-l): refuted. *)
+Theorem C01_cleared_write_deadline_is_cleared_refuted : forall d,
+  ws_after_sets true [Some d; None] = Some d /\ write_ok (ws_after_sets true [Some d; None]) d = false.
+Proof. exact skipped_clear_keeps_old_deadline. Qed.
+Print Assumptions C01_cleared_write_deadline_is_cleared_refuted.
 
 (** ** The code the models were written against is the code in the tree *)
 Theorem C01_source_tie :
